@@ -328,6 +328,20 @@ theorem c19_tmp_name_not_final (fn : Bytes) (pid : Nat) (dir path e : Bytes) (c 
   rw [h2] at hd
   cases c <;> simp [Coding.label] at hd <;> subst hd <;> simp [isDigit] at hdig
 
+/-- The published cache file name determines the source path, the validator digits of the
+    entity tag and the coding: two static resources / versions / codings never share a cache
+    entry (entity tags of static files are '"' decimal digits '-' label '"'). -/
+theorem c19_cache_name_injective (dir p1 p2 d1 d2 : Bytes) (c1 c2 : Coding)
+    (hn1 : d1 ≠ []) (hn2 : d2 ≠ [])
+    (hd1 : ∀ x ∈ d1, isDigit x = true) (hd2 : ∀ x ∈ d2, isDigit x = true)
+    (h : cacheFileName dir p1 (staticEtag d1 c1) = cacheFileName dir p2 (staticEtag d2 c2)) :
+    pathJoin dir p1 = pathJoin dir p2 ∧ d1 = d2 ∧ c1 = c2 :=
+  cacheFileName_static_inj dir p1 p2 d1 d2 c1 c2 hn1 hn2 hd1 hd2 h
+
+example : cacheFileName (ofString "/c") (ofString "/srv/a-1") (staticEtag (ofString "22") .gzip)
+    = ofString "/c/srv/a-1-22-gzip" := by decide
+example : suffixEtag (ofString "\"22\"") Coding.gzip.label = staticEtag (ofString "22") .gzip := by decide
+
 example : tmpFileName (cacheFileName (ofString "/c") (ofString "/srv/a.txt") (ofString "\"12-gzip\"")) 4711
     = ofString "/c/srv/a.txt-12-gzip.4711" := by decide
 
